@@ -48,7 +48,26 @@ LIST_SETTINGS = {"cors_allow_origins", "cors_allow_methods", "cors_allow_headers
 NUMERIC = {"port", "thread_count", "request_allocation_size"}
 
 
+# boundary and degenerate values of each setting's domain (the empty list is the documented
+# default of the list settings and a value an operator writes to switch something off)
+DOMAIN = {
+    "ip": ("0.0.0.0", "::1"),
+    "port": ("1", "1024", "65534", "65535"),
+    "thread_count": ("1", "2", "1000"),
+    "request_allocation_size": ("1", "4000", "4001", "1000000"),
+    "cors_allow_all": ("true", "false"),
+    "cors_allow_origins": ("", "*", "null"),
+    "cors_allow_methods": ("", "*"),
+    "cors_allow_headers": ("", "*"),
+    "cors_allow_credentials": ("", "true", "false"),
+    "cors_expose_headers": ("", "*"),
+    "cors_max_age": ("0", "1", "4294967295"),
+}
+
+
 def toml_value(setting, value, style="default"):
+    if setting in LIST_SETTINGS and style != "string" and value == "":
+        return "[]"
     if setting in LIST_SETTINGS and style != "string":
         q = "'" if style == "single" else '"'
         return "[" + ", ".join(f"{q}{v}{q}" for v in value.split(",")) + "]"
@@ -324,6 +343,25 @@ def cases(tier):
     out.append({"family": "all", "env": {s: VALUES[s][0] for s in ORDER}, "file": [(s, VALUES[s][1], "_", "default") for s in ORDER], "cli": [(s, VALUES[s][2], "long") for s in ORDER]})
     out.append({"family": "all", "env": {s: VALUES[s][0] for s in ORDER}, "file": [(s, VALUES[s][1], "-", "double") for s in ORDER], "cli": []})
     out.append({"family": "all", "env": {s: VALUES[s][0] for s in ORDER}, "file": [], "cli": [(s, VALUES[s][2], "short") for s in ORDER]})
+    # 6. the domain of each setting: every boundary / degenerate value from each source alone, and
+    #    from each source over an ordinary value of every lower-priority source
+    for s in ORDER:
+        for b in DOMAIN[s]:
+            for hi in range(3):
+                for lo in [None] + list(range(hi)):
+                    c = {"family": "value-domain", "setting": s, "value": b, "env": {}, "file": [], "cli": []}
+                    def put(src, v):
+                        if src == 0:
+                            c["env"][s] = v
+                        elif src == 1:
+                            c["file"].append((s, v, "_", "default"))
+                        else:
+                            c["cli"].append((s, v, "long"))
+                    put(hi, b)
+                    if lo is not None:
+                        put(lo, VALUES[s][lo])
+                    c["sources"] = f"{('environment', 'config-file', 'command-line')[hi]}" + (f" over {('environment', 'config-file', 'command-line')[lo]}" if lo is not None else "")
+                    out.append(c)
     out += documented_cases()
     return out
 
@@ -402,6 +440,9 @@ def sig_probe(case, setting, got, want):
     for i, n in enumerate(("environment", "config-file", "command-line")):
         if want == VALUES[setting][i]:
             src_want = n
+    if fam == "value-domain":
+        shown = case["value"] if case["value"] != "" else "<empty>"
+        return f"C12:value-of-the-domain-not-effective:{setting}={shown}:{src_got}-instead"
     if fam == "spelling":
         return f"C12:spelling-does-not-reach-its-setting:{setting}:{case['spelling'].split(',')[0]}"
     if fam == "independence" and setting not in (case.get("setting"),):
